@@ -53,7 +53,10 @@ Print Assumptions C13_select_spec.
 (* ======================= readers ======================= *)
 (* [tr_chunked c N R chs]: chs concatenates to the frame (names N, rows R, index 0..n-1), every
    chunk has the columns N, chunk i carries the index i*c.., all chunks but the last have c rows,
-   and for a non-empty table the chunks are exactly the c-chunks of R. *)
+   and for a non-empty table the chunks are exactly the c-chunks of R.
+   Requests: every duplicate-free list of known columns, THE EMPTY LIST INCLUDED (all rows, no column) — after the
+   repair of the CSV / Parquet leaf readers (/repo 37b7b88, 79a1472) the former guard "every file leaf is asked for at
+   least one of its columns" (tr_req, cs <> []) is gone from every statement below. *)
 
 Theorem C13_reader_frame : forall c t cs, 0 < c -> tb_wf t -> NoDup cs -> incl cs (tb_names t) ->
   exists chs, tr_chunks (TrFrame t) c (Some cs) = Ok chs
@@ -62,27 +65,57 @@ Theorem C13_reader_frame : forall c t cs, 0 < c -> tb_wf t -> NoDup cs -> incl c
 Proof. exact tr_reader_frame. Qed.
 Print Assumptions C13_reader_frame.
 
-Theorem C13_reader_csv : forall c t cs, 0 < c -> tb_wf t -> NoDup cs -> incl cs (tb_names t) -> cs <> [] ->
+Theorem C13_reader_csv : forall c t cs, 0 < c -> tb_wf t -> NoDup cs -> incl cs (tb_names t) ->
   exists chs, tr_chunks (TrCsv t) c (Some cs) = Ok chs
     /\ tr_read (TrCsv t) (Some cs) = Ok (ch_whole cs (map (ch_select_row (tb_names t) cs) (tb_rows t)))
     /\ tr_chunked c cs (map (ch_select_row (tb_names t) cs) (tb_rows t)) chs.
 Proof. exact tr_reader_csv. Qed.
 Print Assumptions C13_reader_csv.
 
-(* for EVERY record-batch oracle that keeps the contract (all batches but the last have c rows) *)
-Theorem C13_reader_parquet : forall c t bl bl0 cs, 0 < c -> tb_wf t ->
-  ch_batches_ok c (length (tb_rows t)) bl -> NoDup cs -> incl cs (tb_names t) -> cs <> [] ->
+(* for EVERY record-batch oracle that keeps the contract (all batches but the last have c rows) for non-empty
+   projections; the file has at least one column (for columns=[] the reader projects the first one and drops it;
+   formerly implied by cs <> []) *)
+Theorem C13_reader_parquet : forall c t bl bl0 cs, 0 < c -> tb_wf t -> tb_names t <> [] ->
+  ch_batches_ok c (length (tb_rows t)) bl -> NoDup cs -> incl cs (tb_names t) ->
   exists chs, tr_chunks (TrParquet t bl bl0) c (Some cs) = Ok chs
     /\ tr_read (TrParquet t bl bl0) (Some cs) = Ok (ch_whole cs (map (ch_select_row (tb_names t) cs) (tb_rows t)))
     /\ tr_chunked c cs (map (ch_select_row (tb_names t) cs) (tb_rows t)) chs.
 Proof. exact tr_reader_parquet. Qed.
 Print Assumptions C13_reader_parquet.
 
+(* what the running offset buys: WITHOUT the batch contract — for ANY batch lengths that sum to the number of rows (short
+   batches in the middle, empty batches) — the chunks concatenate to the whole read (rows, order, index 0..n-1), carry the
+   requested columns, every chunk's index starts at the number of rows delivered before it, and the chunks are as long as
+   the batches.  Only "all chunks but the last have c rows" (in tr_chunked above) needs the contract. *)
+Theorem C13_reader_parquet_any_batches : forall c t bl bl0 cs, 0 < c -> tb_wf t -> tb_names t <> [] ->
+  fold_right Nat.add 0 bl = length (tb_rows t) -> NoDup cs -> incl cs (tb_names t) ->
+  exists chs, tr_chunks (TrParquet t bl bl0) c (Some cs) = Ok chs
+    /\ tr_read (TrParquet t bl bl0) (Some cs) = Ok (ch_whole cs (map (ch_select_row (tb_names t) cs) (tb_rows t)))
+    /\ ch_concat cs chs = ch_whole cs (map (ch_select_row (tb_names t) cs) (tb_rows t))
+    /\ Forall (fun f => ch_names f = cs) chs
+    /\ (forall i f, nth_error chs i = Some f ->
+          ch_index f = seq (length (flat_map ch_rows (firstn i chs))) (length (ch_rows f)))
+    /\ map (fun f => length (ch_rows f)) chs = bl.
+Proof. exact tr_reader_parquet_any_batches. Qed.
+Print Assumptions C13_reader_parquet_any_batches.
+
+Theorem C13_reader_parquet_any_batches_none : forall c t bl bl0, 0 < c ->
+  fold_right Nat.add 0 bl = length (tb_rows t) ->
+  exists chs, tr_chunks (TrParquet t bl bl0) c None = Ok chs
+    /\ tr_read (TrParquet t bl bl0) None = Ok (ch_whole (tb_names t) (tb_rows t))
+    /\ ch_concat (tb_names t) chs = ch_whole (tb_names t) (tb_rows t)
+    /\ Forall (fun f => ch_names f = tb_names t) chs
+    /\ (forall i f, nth_error chs i = Some f ->
+          ch_index f = seq (length (flat_map ch_rows (firstn i chs))) (length (ch_rows f)))
+    /\ map (fun f => length (ch_rows f)) chs = bl.
+Proof. exact tr_reader_parquet_any_batches_none. Qed.
+Print Assumptions C13_reader_parquet_any_batches_none.
+
 Theorem C13_reader_mapped : forall c r m cs, 0 < c -> tr_wf c r -> NoDup (map (tr_rename m) (tr_names r)) ->
   NoDup cs -> incl cs (map (tr_rename m) (tr_names r)) ->
   exists ocs, tr_orig_cols (combine (map (tr_rename m) (tr_names r)) (tr_names r)) cs = Some ocs
     /\ map (tr_rename m) ocs = cs
-    /\ (tr_req r ocs -> tr_req_inv r ocs ->
+    /\ (tr_req_inv r ocs ->
         exists chs, tr_chunks (TrMapped r m) c (Some cs) = Ok chs
           /\ tr_read (TrMapped r m) (Some cs) = Ok (ch_whole cs (tr_select r ocs))
           /\ tr_chunked c cs (tr_select r ocs) chs).
@@ -91,7 +124,7 @@ Print Assumptions C13_reader_mapped.
 
 Theorem C13_reader_joined : forall c rs cs, 0 < c -> tr_wf c (TrJoined rs) -> NoDup cs ->
   incl cs (flat_map tr_names rs) ->
-  (forall r, In r rs -> tr_req r (tr_sub (tr_names r) cs) /\ tr_req_inv r (tr_sub (tr_names r) cs)) ->
+  (forall r, In r rs -> tr_req_inv r (tr_sub (tr_names r) cs)) ->
   exists chs, tr_chunks (TrJoined rs) c (Some cs) = Ok chs
     /\ tr_read (TrJoined rs) (Some cs)
        = Ok (ch_whole cs (map (ch_select_row (flat_map tr_names rs) cs) (tr_hzip_all (map tr_drows rs))))
@@ -103,7 +136,7 @@ Print Assumptions C13_reader_joined.
 Theorem C13_reader_computed : forall c r k f g cs, 0 < c -> tr_wf c r -> ~ In k (tr_names r) ->
   (forall names rows, f names rows = Ok (map (g names) rows)) ->
   NoDup cs -> incl cs (tr_names r ++ [k]) ->
-  tr_req r (tr_without k cs) -> tr_req_inv r (tr_without k cs) ->
+  tr_req_inv r (tr_without k cs) ->
   f (tr_without k cs) (map (ch_select_row (tr_names r) (tr_without k cs)) (tr_drows r)) = f (tr_names r) (tr_drows r) ->
   exists chs, tr_chunks (TrComputed r k f) c (Some cs) = Ok chs
     /\ tr_read (TrComputed r k f) (Some cs)
@@ -117,16 +150,20 @@ Print Assumptions C13_reader_computed.
 (* a computed column that is not requested (after the repair of /repo func is then not called): for ANY func, row-wise or
    not, failing or not, the read through the computed reader is the read of the inner reader, whole and chunked *)
 Theorem C13_reader_computed_skip : forall c r k f cs, 0 < c -> tr_wf c r -> NoDup cs -> incl cs (tr_names r) ->
-  tr_req r cs -> ~ In k cs ->
+  ~ In k cs ->
   tr_read (TrComputed r k f) (Some cs) = tr_read r (Some cs)
   /\ tr_stream (TrComputed r k f) c (Some cs) = tr_stream r c (Some cs).
 Proof. exact tr_computed_skip. Qed.
 Print Assumptions C13_reader_computed_skip.
 
 (* any tree of readers: chunked read = chunked delivery of the whole read = requested columns, in
-   the requested order, of the table the tree stands for (tr_names / tr_drows) *)
+   the requested order, of the table the tree stands for (tr_names / tr_drows).
+   tr_req_inv is the one remaining hypothesis on the request, and it only concerns computed readers whose column is
+   requested: their function sees the requested columns only (the inner reader is read with the request minus k), so
+   its values must not depend on the others.  It is trivial for leaves, passes through renamings and joins, and asks
+   nothing when the computed column is not requested. *)
 Theorem C13_reader_tree : forall c r cs, 0 < c -> tr_wf c r -> NoDup cs -> incl cs (tr_names r) ->
-  tr_req r cs -> tr_req_inv r cs ->
+  tr_req_inv r cs ->
   exists chs, tr_chunks r c (Some cs) = Ok chs
     /\ tr_read r (Some cs) = Ok (ch_whole cs (tr_select r cs))
     /\ tr_chunked c cs (tr_select r cs) chs
@@ -134,9 +171,9 @@ Theorem C13_reader_tree : forall c r cs, 0 < c -> tr_wf c r -> NoDup cs -> incl 
 Proof. exact tr_reader_ok. Qed.
 Print Assumptions C13_reader_tree.
 
-(* chunked = whole, with no assumption on which columns computed functions look at *)
+(* chunked = whole for EVERY well-formed tree and EVERY duplicate-free request of known columns: no assumption on
+   which columns computed functions look at, none on which leaves the request reaches *)
 Theorem C13_reader_chunks_eq_read : forall c r cs, 0 < c -> tr_wf c r -> NoDup cs -> incl cs (tr_names r) ->
-  tr_req r cs ->
   exists chs whole, tr_chunks r c (Some cs) = Ok chs /\ tr_read r (Some cs) = Ok whole
     /\ ch_names whole = cs /\ ch_index whole = seq 0 (tr_nrows r) /\ length (ch_rows whole) = tr_nrows r
     /\ tr_chunked c cs (ch_rows whole) chs.
@@ -254,21 +291,17 @@ Proof.
       * simpl. intuition discriminate.
       * reflexivity.
     + apply wf_mapped.
-      * apply wf_parquet; [exact Hb|]. simpl. repeat split; first [lia | intros; congruence].
+      * apply wf_parquet; [exact Hb | discriminate |]. simpl. repeat split; first [lia | intros; congruence].
       * simpl. repeat constructor; simpl; intuition discriminate.
   - intros r [<-|[<-|[]]]; reflexivity.
   - simpl. repeat constructor; simpl; intuition discriminate.
 Qed.
 
-Example C13_ex_req : NoDup ex_cols /\ incl ex_cols (tr_names ex_reader)
-                     /\ tr_req ex_reader ex_cols /\ tr_req_inv ex_reader ex_cols.
+Example C13_ex_req : NoDup ex_cols /\ incl ex_cols (tr_names ex_reader) /\ tr_req_inv ex_reader ex_cols.
 Proof.
-  split; [|split; [|split]].
+  split; [|split].
   - unfold ex_cols. repeat constructor; simpl; intuition discriminate.
   - intros x Hx. unfold ex_cols in Hx. simpl in *. intuition.
-  - apply rq_joined. intros r [<-|[<-|[]]].
-    + apply rq_computed. apply rq_frame.
-    + apply rq_mapped with (ocs := [2]); [reflexivity|]. apply rq_parquet. discriminate.
   - apply ri_joined. intros r [<-|[<-|[]]].
     + apply ri_computed; [intros _; reflexivity | apply ri_frame].
     + apply ri_mapped with (ocs := [2]); [reflexivity|]. apply ri_parquet.
@@ -292,7 +325,7 @@ Proof.
     + discriminate.
     + apply Forall_cons; [apply wf_csv; exact Ha|]. apply Forall_cons; [|apply Forall_nil].
       apply wf_mapped.
-      * apply wf_parquet; [exact Hb|]. simpl. repeat split; first [lia | intros; congruence].
+      * apply wf_parquet; [exact Hb | discriminate |]. simpl. repeat split; first [lia | intros; congruence].
       * simpl. repeat constructor; simpl; intuition discriminate.
     + intros r [<-|[<-|[]]]; reflexivity.
     + simpl. repeat constructor; simpl; intuition discriminate.
@@ -336,39 +369,81 @@ Example C13_ex_buffered :
   /\ Forall (fun d => bw_accepts BwRecords d = true) [[1];[2];[3]].
 Proof. split; [|split]; [vm_compute; reflexivity | vm_compute; reflexivity | repeat constructor]. Qed.
 
-(* ======================= the guards are necessary (witnesses) ======================= *)
-(* finding csv-reader:columns=[] — only the computed column requested from a CSV-backed reader:
-   the table has 3 rows, the read returns none (usecols=[] parses no row) *)
-Example C13_csv_starved_refuted :
+(* ======================= the repaired leaf readers: former counterexamples now satisfy the property ======================= *)
+(* fixed finding csv-reader:columns=[] — only the computed column requested from a CSV-backed reader (the CSV leaf is
+   asked for columns=[]): the reader and request that used to return no row now satisfy every hypothesis of
+   C13_reader_tree, and the read returns the 3 rows of the table, whole and chunked *)
+Example C13_csv_empty_request_ok :
   let r := TrComputed (TrCsv ex_ta) 9 (tr_fn_const 7%Z) in
-  tr_wf 2 r /\ NoDup [9] /\ incl [9] (tr_names r)
+  tr_wf 2 r /\ NoDup [9] /\ incl [9] (tr_names r) /\ tr_req_inv r [9]
   /\ tr_select r [9] = [[7];[7];[7]]%Z
-  /\ tr_read r (Some [9]) = Ok (ch_whole [9] []).
+  /\ tr_read r (Some [9]) = Ok (ch_whole [9] [[7];[7];[7]]%Z)
+  /\ tr_chunks r 2 (Some [9])
+     = Ok [ {| ch_index := [0;1]; ch_names := [9]; ch_rows := [[7];[7]]%Z |};
+            {| ch_index := [2]; ch_names := [9]; ch_rows := [[7]]%Z |} ]
+  /\ tr_read (TrCsv ex_ta) (Some []) = Ok (ch_whole [] [[];[];[]])
+  /\ tr_chunks (TrCsv {| tb_names := [0;1]; tb_rows := [] |}) 2 (Some []) = Ok [ch_whole [] []].
 Proof.
-  destruct C13_ex_table_wf as [Ha _]. cbv zeta. split; [|split; [|split; [|split]]].
+  destruct C13_ex_table_wf as [Ha _]. cbv zeta. split; [|split; [|split; [|split; [|split; [|split; [|split; [|split]]]]]]].
   - apply wf_computed with (g := fun _ _ => 7%Z); [apply wf_csv; exact Ha | simpl; intuition discriminate | reflexivity].
   - repeat constructor. simpl. intuition.
   - intros x [<-|[]]. simpl. intuition.
+  - apply ri_computed; [intros _; reflexivity | apply ri_csv].
+  - vm_compute. reflexivity.
+  - vm_compute. reflexivity.
+  - vm_compute. reflexivity.
   - vm_compute. reflexivity.
   - vm_compute. reflexivity.
 Qed.
 
-(* finding parquet-reader:columns=[] — without a projected column the batches follow the row
-   groups (here 1,1,1 for c = 2): the index i*c jumps *)
-Example C13_parquet_starved_refuted :
+(* fixed finding parquet-reader:columns=[] — the Parquet leaf is asked for columns=[]: it now projects its first column,
+   so the batches are those of a non-empty projection (bl = 2,1 for c = 2; bl0 = 1,1,1 is no longer consulted), and the
+   index is a running offset: the chunks are the 2-chunks, index 0,1 | 2 *)
+Example C13_parquet_empty_request_ok :
   let r := TrComputed (TrParquet ex_tb [2;1] [1;1;1]) 9 (tr_fn_const 7%Z) in
-  tr_wf 2 r /\ exists chs, tr_chunks r 2 (Some [9]) = Ok chs /\ map ch_index chs = [[0];[2];[4]].
+  tr_wf 2 r /\ NoDup [9] /\ incl [9] (tr_names r) /\ tr_req_inv r [9]
+  /\ tr_read r (Some [9]) = Ok (ch_whole [9] [[7];[7];[7]]%Z)
+  /\ tr_chunks r 2 (Some [9])
+     = Ok [ {| ch_index := [0;1]; ch_names := [9]; ch_rows := [[7];[7]]%Z |};
+            {| ch_index := [2]; ch_names := [9]; ch_rows := [[7]]%Z |} ].
 Proof.
-  destruct C13_ex_table_wf as [_ Hb]. cbv zeta. split.
+  destruct C13_ex_table_wf as [_ Hb]. cbv zeta. split; [|split; [|split; [|split; [|split]]]].
   - apply wf_computed with (g := fun _ _ => 7%Z); [|simpl; intuition discriminate | reflexivity].
-    apply wf_parquet; [exact Hb|]. simpl. repeat split; first [lia | intros; congruence].
-  - eexists. split; vm_compute; reflexivity.
+    apply wf_parquet; [exact Hb | discriminate |]. simpl. repeat split; first [lia | intros; congruence].
+  - repeat constructor. simpl. intuition.
+  - intros x [<-|[]]. simpl. intuition.
+  - apply ri_computed; [intros _; reflexivity | apply ri_parquet].
+  - vm_compute. reflexivity.
+  - vm_compute. reflexivity.
 Qed.
 
-(* the batch-length contract of the Parquet oracle is necessary: a short batch in the middle *)
+(* a joined reader with a member none of whose columns is requested (CSV and Parquet members asked for columns=[]) *)
+Example C13_joined_unrequested_member_ok :
+  let r := TrJoined [TrCsv ex_ta; TrParquet ex_tb [2;1] [1;1;1]; TrFrame {| tb_names := [7]; tb_rows := [[1];[2];[3]]%Z |}] in
+  tr_chunks r 2 (Some [7])
+  = Ok [ {| ch_index := [0;1]; ch_names := [7]; ch_rows := [[1];[2]]%Z |};
+         {| ch_index := [2]; ch_names := [7]; ch_rows := [[3]]%Z |} ]
+  /\ tr_read r (Some [7]) = Ok (ch_whole [7] [[1];[2];[3]]%Z).
+Proof. cbv zeta. split; vm_compute; reflexivity. Qed.
+
+(* ======================= the remaining guards are necessary (witnesses) ======================= *)
+(* the batch-length contract of the Parquet oracle: with the running offset a short batch in the middle no longer breaks
+   the index (0 | 1,2: C13_reader_parquet_any_batches applies, the lengths 1,2 sum to 3), but the chunks are then not
+   the c-chunks: the first has 1 row instead of c = 2 — the contract is needed exactly for the chunk sizes *)
 Example C13_parquet_contract_needed :
-  exists chs, tr_chunks (TrParquet ex_tb [1;2] []) 2 (Some [2;3]) = Ok chs /\ map ch_index chs = [[0];[2;3]].
-Proof. eexists. split; vm_compute; reflexivity. Qed.
+  exists chs, tr_chunks (TrParquet ex_tb [1;2] []) 2 (Some [2;3]) = Ok chs
+    /\ map ch_index chs = [[0];[1;2]]
+    /\ ch_concat [2;3]%nat chs = ch_whole [2;3]%nat (tb_rows ex_tb)
+    /\ map ch_rows chs <> ch_chunks 2 (tb_rows ex_tb).
+Proof. eexists. split; [|split; [|split]]; try (vm_compute; reflexivity). vm_compute. discriminate. Qed.
+
+(* a NON-empty list of unknown names only (outside the property's domain) is passed to pyarrow as it is: an empty
+   projection after all, batches as the row groups lie (bl0 = 1,1,1); the running offset still numbers the rows 0,1,2 *)
+Example C13_parquet_unknown_names_only :
+  tr_chunks (TrParquet ex_tb [2;1] [1;1;1]) 2 (Some [8]) = Ok [ {| ch_index := [0]; ch_names := []; ch_rows := [[]] |};
+                                                               {| ch_index := [1]; ch_names := []; ch_rows := [[]] |};
+                                                               {| ch_index := [2]; ch_names := []; ch_rows := [[]] |} ].
+Proof. vm_compute. reflexivity. Qed.
 
 (* the function of a computed column must work row by row: len(df) differs between chunks *)
 Example C13_rowwise_needed :
